@@ -30,6 +30,7 @@ DECIDED = [
     "C02.7 dry run: all three decisions return False before anything else",
     "C02.8 retry budget strictly consumed (should_rerun table + result list ownership)",
     "C02.9 a traversed parent that needs no more running is dropped (progress of the inverse DFS)",
+    "C02.11 the postponement of cleanups consults a freshly computed list of unexplored flat nodes (a stale list postpones forever: busy loop)",
     "C02.10 recovery from a hung occupant: the re-entrancy limit strictly grows each time the waiting budget is exhausted",
 ]
 NOT_DECIDED = [
@@ -214,6 +215,7 @@ def run(ctx: Ctx) -> None:
     ctx.call(N.should_rerun_table, "8")
     ctx.call(T.t_r1, "8/T.R1")
     ctx.call(T.t_g4, "9/T.G4")
+    ctx.call(T.t_g5, "11/T.G5")
     from .c04 import reentrancy_rule
 
     ctx.call(reentrancy_rule, "10")
